@@ -101,6 +101,11 @@ def fam_text(name, n):
         return "\\\n" * n + "@a{k}"
     if name == "string_refs":
         return "".join("@string{s%d = {v%d}}\n" % (i, i) for i in range(n)) + "".join("@a{k%d, t = s%d}\n" % (i, i) for i in range(n))
+    if name == "string_chain":
+        return "".join("@string{s%d = s%d}\n" % (i, i + 1) for i in range(n)) + "@string{s%d = {end}}\n@a{k, t = s0, u = s%d}\n" % (n, n // 2)
+    if name == "string_cycle":
+        m = max(2, n // 500)
+        return "".join("@string{c%d = c%d}\n" % (i, (i + 1) % m) for i in range(m)) + "@a{k, t = c0, u = c1}\n" + "@a{k%d, t = c0}\n" * 3
     if name == "eof_in_constructs":
         doc = ent % (1, 1, 1) * 3
         return doc + doc[: (n % len(doc))]
@@ -112,7 +117,7 @@ FAMILIES = ["blank_lines", "blank_lines_then_entry", "crlf_blank_lines", "commen
             "entries_one_line", "duplicate_entries", "fields", "dup_fields", "nest_value", "nest_value_open", "nest_comment",
             "nest_preamble", "nest_quote", "close_braces", "long_line", "long_free_line", "unterminated_openers",
             "unterminated_openers_sameline", "unterminated_strings", "unterminated_comments", "quotes", "commas", "equals",
-            "ats", "backslash_lines", "string_refs", "eof_in_constructs"]
+            "ats", "backslash_lines", "string_refs", "string_chain", "string_cycle", "eof_in_constructs"]
 QUADRATIC = {"duplicate_entries", "unterminated_openers_sameline"}   # O(n^2) work inside the library: capped sizes
 
 
@@ -136,6 +141,8 @@ def cases(tier, seed, shard, nshards):
     n = tier_pick(tier, 40000, 1000000) // nshards
     for i in range(n):
         yield {"k": "garbage", "text": garbage.text(r)}
+    for i in range(tier_pick(tier, 8000, 200000) // nshards):
+        yield {"k": "refgraph", "text": refgraph(r)}
     n = tier_pick(tier, 16000, 300000) // nshards
     for i in range(n):
         text, _ = grammar.document(r, grammar.Opts(max_items=r.choice([2, 4, 8])))
@@ -151,6 +158,20 @@ def setup(ctx):
 
 def finish(ctx):
     sp.scan_states_flush(ctx)
+
+
+def refgraph(r):
+    """@string definitions over a tiny key pool whose values reference each other (chains, cycles,
+    self-references, duplicates) and entries referencing them."""
+    keys = ["a", "b", "c", "A"]
+    blocks = []
+    for _ in range(r.randint(1, 5)):
+        v = r.choice(keys + keys + ["{x}", '"y"', "a # b", "12"])
+        blocks.append("@%s{%s = %s}" % (r.choice(["string", "STRING"]), r.choice(keys), v))
+    for i in range(r.randint(1, 3)):
+        blocks.append("@misc{e%d, f = %s, g = %s}" % (i, r.choice(keys), r.choice(keys + ["{a}", "a # a"])))
+    r.shuffle(blocks)
+    return "\n".join(blocks) + "\n"
 
 
 def check(case, ctx):
